@@ -306,6 +306,10 @@ def run(ctx: common.Ctx):
                     if len(sub) == len(names):
                         sub = sorted(closure[rng.choice(names)])
                     add(f"subset{k}", [pr.make_run(argv_for(me, out(f"sub{k}")), out(f"sub{k}"), scratch / "cwd", {"subset": sub})], 0, "subset")
+                for sp in [n_ for n_ in names if n_.rsplit(".", 3)[-3] in ("StropA", "StropB", "register", "_register")]:
+                    sub = sorted(closure[sp])
+                    tagn = "only_" + sp.rsplit(".", 3)[-3]
+                    add(f"subset-{tagn}", [pr.make_run(argv_for(me, out(tagn)), out(tagn), scratch / "cwd", {"subset": sub})], 0, "subset")
                 for k in range(nsub):
                     order = names[:]
                     rng.shuffle(order)
@@ -527,6 +531,7 @@ def run(ctx: common.Ctx):
                                  {"input": m["input"], "lang": m["lang"], "options": m["extra"], "variant": m["variant"], "file": rel, "first_differing_line": d})
                         break
     ctx.extra["root_first_lines_checked"] = first_lines_checked
+    shared.run_histories(ctx, model)
     ctx.sample({"paired_jobs": len(jobs), "inputs": [i[0] for i in inputs]})
 
 
